@@ -54,7 +54,7 @@ def gen(seed, idx, tier):
             steps=(3, 12),
             dt_choices=[1e-3, 0.01, 0.05],
             n_terminals=rnd.choice([0, 2, 3, 4, 4]),
-            field_kinds=("const", "ramp", "pw", "sin"),
+            field_kinds=("const", "ramp", "pw", "sin", "wave"),
             size=rnd.choice(["small", "medium"]),
         )
     scn["max_screen_iters"] = 1500  # bounded: 16 threads pinned to one core are slow
@@ -97,7 +97,7 @@ def gen(seed, idx, tier):
     if mode == "inproc" and not large and rnd.random() < 0.2 and not scn["options"]["skip_time"]:
         # the same seed Solution OBJECT handed to every member: a run must not modify its inputs
         reuse = True
-        if scn["drive"]["field"]["kind"] in ("ramp", "pw", "sin"):
+        if scn["drive"]["field"]["kind"] in ("ramp", "pw", "sin", "wave"):
             scn["drive"]["field"] = {"kind": "const", "B": scn["drive"]["field"]["B"]}
         cur2 = scn["drive"]["currents"]
         if cur2 is not None and cur2["kind"] in ("pw", "ramp"):
